@@ -301,46 +301,30 @@ def run(ctx):
         names = []
         if arr:
             for o in arr:
-                e = gs.expr(o)
-                inner = e[2][0] if e[0] == "call" and e[2] else e
-                v = L.value_of(gs, inner) if inner[0] in ("place", "ref") else inner
-                txt = repr(v) + repr(inner)
-                l = L.root_local(gs, inner)
-                nmv = gs.local_name(l) if l is not None else ""
-                if nmv in ("min_length", "max_length"):
-                    names.append(nmv)
-                elif "map_or" in txt:
-                    src = v[2][0] if v[0] == "call" and v[2] else v
-                    fs = F.place_fields(src[1]) if src[0] in ("place", "ref") else []
-                    if fs:
-                        names.append(fs[-1][1])
-                    else:
-                        ls = L.root_local(gs, src, any_call=True)
-                        names.append(gs.local_name(ls) if ls is not None else "?")
-                else:
-                    names.append("?")
+                # provenance by role (schema field the value is read from), whatever the locals are called
+                r = L.role(gs, o, depth=14)
+                hits = [f for f in ("min_length", "max_length") if ("." + f) in r]
+                names.append(hits[0] if len(hits) == 1 else "?(%s)" % r[:60])
         ctx.check(names == ["min_length", "max_length"], "C09-R3", "string-length:argument-order#%d" % n_, "filled with (min_length, max_length)",
                   "the length regex is filled with %s: minLength and maxLength are swapped or replaced" % names, site=gs.where(tmpl[0]))
     ga = ctx.body(JC + "::gen_json_array")
     r = P.own_effects(ga)[2]
     ok = ("llguidance::json::schema::ArraySchema", "min_items") in r and ("llguidance::json::schema::ArraySchema", "max_items") in r
-    mn = next((i for i, d in enumerate(ga.locals) if d.get("n") == "min_items"), None)
-    mx = next((i for i, d in enumerate(ga.locals) if d.get("n") == "max_items"), None)
-    if mn is not None and mx is not None:
-        e1, e2 = ga.expr_place([mn]), None
-        ok = ok and e1[0] == "place" and F.place_fields(e1[1])[-1:] == [("llguidance::json::schema::ArraySchema", "min_items")]
-        dsx = ga.defs().get(mx, [])
-        first = [p for (bi, si, k, p) in dsx if k == "assign" and p["rv"] == "use" and F.op_place(p["o"]) and F.place_fields(F.op_place(p["o"]))[-1:] == [("llguidance::json::schema::ArraySchema", "max_items")]]
-        ok = ok and bool(first)
-    ctx.check(ok, "C09-R3", "array:min/max-sources", "min_items / max_items are read from the like-named schema fields",
-              "gen_json_array no longer binds min_items/max_items to the like-named fields", site=ga.where())
-    # required vs optional split at i < min_items
-    g = L.guard_edges(ga, lambda e: e[0] == "bin" and e[1] == "Lt" and (L.is_field_read("llguidance::json::schema::ArraySchema", "min_items")(e[3]) or (
-        e[3][0] in ("place", "local") and ga.local_name(e[3][1] if e[3][0] == "local" else e[3][1][0]) == "min_items")), True)
-    req_push = [bi for bi, t in ga.calls() if t["f"].get("def", "").endswith("Vec::<T, A>::push") and L.root_local(ga, ga.expr(t["args"][0])) is not None
-                and ga.local_name(L.root_local(ga, ga.expr(t["args"][0]))) == "required_items"]
-    ctx.check(bool(g) and bool(req_push) and not L.dominated_by_cut(ga, req_push, g), "C09-R3", "array:required-iff-below-minItems",
-              "an item is required exactly when its index is < min_items", "gen_json_array's required/optional split is no longer `i < min_items`", site=ga.where())
+    AS = "llguidance::json::schema::ArraySchema"
+    ctx.check(ok, "C09-R3", "array:min/max-sources", "minItems / maxItems are read from ArraySchema.min_items / max_items",
+              "gen_json_array no longer reads min_items/max_items of the array schema", site=ga.where())
+    # required vs optional split at i < min_items (the symbolic chase sees through `let min_items = arr.min_items`):
+    # one vector is pushed to only on the true edge, a different one only on the false edge
+    lt = lambda e: e[0] == "bin" and e[1] == "Lt" and L.is_field_read(AS, "min_items")(L.strip_wrappers(e[3]))
+    g_t = L.guard_edges(ga, lt, True)
+    g_f = L.guard_edges(ga, lt, False)
+    heads = {t for (_, t) in g_t} | {t for (_, t) in g_f}
+    pushes = [(bi, L.root_local(ga, ga.expr(t["args"][0]))) for bi, t in ga.calls() if t["f"].get("def", "").endswith("Vec::<T, A>::push")]
+    under_t = {l for bi, l in pushes if l is not None and g_t and not L.dominated_by_cut(ga, [bi], g_t)}
+    under_f = {l for bi, l in pushes if l is not None and g_f and not L.dominated_by_cut(ga, [bi], g_f)}
+    ctx.check(bool(g_t) and bool(under_t) and bool(under_f) and not (under_t & under_f), "C09-R3", "array:required-iff-below-minItems",
+              "an item goes to the required vector exactly when its index is < min_items, otherwise to a different (optional) vector",
+              "gen_json_array's required/optional split is no longer `i < min_items`", site=ga.where())
     go = ctx.body(JC + "::gen_json_object")
     bs = go.call_blocks(JC + "::bounded_sequence")
     ok = False
